@@ -49,7 +49,7 @@ def check(repo, res, tier):
     from .common import borrow
     res.rule('C13.E6', 'adopted C08.A8/A9: "finished" fires exactly duration after "started" only while the telescope\'s '
                        'in-use flag and array count are kept as begin/finish_observation leave them')
-    borrow(repo, res, tier, c08, {'C08.A1', 'C08.A8', 'C08.A9'}, 'C13.E6')
+    borrow(repo, res, tier, c08, {'C08.A1', 'C08.A8', 'C08.A9', 'C08.A12'}, 'C13.E6')
     from . import c07
     res.rule('C13.E7', 'adopted C07.B3: HotBuffer.remove succeeds for any resident (scheduled) observation -- a refused removal '
                        'makes the scheduler retry and log "allocation stopped"/"buffer removed" again every step')
